@@ -336,6 +336,7 @@ func c08Opts() gen.Opts {
 	o := gen.DefaultOpts()
 	o.Directives = []string{"|vfail", "|vq"}
 	o.Funcs = []string{"vfail"}
+	o.ListFuncs = []string{"vpush"}
 	return o
 }
 
